@@ -61,7 +61,7 @@ def parse_tla_seq(txt):
 
 
 # ---------------------------------------------------------------- history -> script
-def script_of(hist, rng, nmax=24, threads=(1, 2, 4), ienv=None, scale_for_equil=True, pert=None, track=True, matgen=None, symmetric=False, tight=0):
+def script_of(hist, rng, nmax=24, threads=(1, 2, 4), ienv=None, scale_for_equil=True, pert=None, track=True, matgen=None, symmetric=False, tight=0, scale=None):
     lines = []
     ps, rl, ms = ienv or (rng.choice([1, 2, 4, 8]), rng.choice([1, 2, 4]), rng.choice([2, 4, 8]))
     lines.append("ienv p1=%d p2=%d p3=%d" % (ps, rl, ms))
@@ -73,8 +73,8 @@ def script_of(hist, rng, nmax=24, threads=(1, 2, 4), ienv=None, scale_for_equil=
         if c["call"] == "mat":
             n = rng.randint(3, nmax)
             gen = matgen or rng.choice(["random", "random", "banded", "arrow", "grid"])
-            scale = rng.choice(["none", "row", "col", "both"]) if scale_for_equil else "none"
-            ln = "mat gen=%s n=%d seed=%d stype=%s scale=%s vstyle=%d" % (gen, n, rng.randrange(1, 10 ** 6), c["stype"], scale, rng.choice([0, 0, 1]) if gen != "random" else 0)
+            scale_ = scale or (rng.choice(["none", "row", "col", "both"]) if scale_for_equil else "none")
+            ln = "mat gen=%s n=%d seed=%d stype=%s scale=%s vstyle=%d" % (gen, n, rng.randrange(1, 10 ** 6), c["stype"], scale_, rng.choice([0, 0, 1]) if gen != "random" else 0)
             if gen == "random":
                 ln += " dens=%d fulldiag=%d" % (rng.choice([150, 300, 500]), rng.choice([0, 1]))
             elif gen == "banded":
